@@ -375,6 +375,9 @@ def sweep(res, rng, n_decks, n_points, tag):
         if i % 9 == 8:
             deck = c05_sweep.gen_like_but_fill(rng)
             res.count(f'{tag}:like-n-but-fill-m')
+        elif i % 9 == 4:
+            deck = c05_sweep.gen_twin_trcl_fill(rng)
+            res.count(f'{tag}:one-universe-several-trcl-containers')
         else:
             deck = c05_sweep.gen_hierarchy(rng)
         # i % 9 and i % 4 are independent: every kind meets every option set
@@ -457,7 +460,8 @@ def run(res, tier, seed, proofs_ok):
         'universe cells that repeat, with the same sense, surfaces bounding '
         'the cell they fill (also through a second level), FILL and cells '
         'unmoved; LIKE n BUT FILL=m TRCL=... copies of a cell whose own FILL '
-        'has a transformation (1 deck in 9); '
+        'has a transformation (1 deck in 9); two or three containers filled '
+        'with the same universe, each placed by its own TRCL (1 deck in 9); '
         'patently empty cells in filling universes; filler cells declared '
         'with U=-n; '
         'IMP=0 level-0 cells), 150+ points per deck; non-trivial = a point '
